@@ -320,12 +320,19 @@ def gen_twoq(r, cid, nops, opts):
     lines = ["case %d twoq size=%d rr=%s gr=%s %s" % (cid, size, f64bits(rr), f64bits(gr), var)]
     hot = r.rng(1, U)
     aged = Aged(size, int(size * gr))
+    room = False
     for _ in range(nops):
         name = r.weighted(table)
         if name in PROFILES["put"]:
             g = aged.ghostish(r) if (name == "put" and r.chance(1, 3)) else None
+            if room and r.chance(1, 2):
+                # a slot has just been freed: revive a ghost while the cache is not full (a branch of its own in 2Q/ARC)
+                g = aged.ghostish(r)
             new = ["put %d %d" % (g, vals.new(g))] if g is not None else common_op(r, name, U, vals, hot).split("\n")
+            room = False
             for l in new:
+                if l.startswith("remove ") and int(l.split()[1]) in aged.hist[: aged.size]:
+                    room = True
                 aged.note(l)
             lines.extend(new)
         elif name == "listlen":
@@ -355,12 +362,19 @@ def gen_arc(r, cid, nops, opts):
     lines = ["case %d arc size=%d %s" % (cid, size, var)]
     hot = r.rng(1, U)
     aged = Aged(size, size)
+    room = False
     for _ in range(nops):
         name = r.weighted(table)
         if name in PROFILES["put"]:
             g = aged.ghostish(r) if (name == "put" and r.chance(1, 3)) else None
+            if room and r.chance(1, 2):
+                # a slot has just been freed: revive a ghost while the cache is not full (a branch of its own in 2Q/ARC)
+                g = aged.ghostish(r)
             new = ["put %d %d" % (g, vals.new(g))] if g is not None else common_op(r, name, U, vals, hot).split("\n")
+            room = False
             for l in new:
+                if l.startswith("remove ") and int(l.split()[1]) in aged.hist[: aged.size]:
+                    room = True
                 aged.note(l)
             lines.extend(new)
         elif name == "listlen":
@@ -419,7 +433,7 @@ def gen_tinylfu(r, cid, nops, opts):
     fp = r.pick([0.01, 0.1, 0.5, 0.001, 0.999, 1e-9])
     lines = ["case %d tinylfu size=%d samples=%d fp=%s" % (cid, size, samples, f64bits(fp))]
     nh = r.rng(1, 6)
-    hs = [r.pick([0, MASK, 1, 1 << 32, (1 << 32) - 1, r.next(), r.next()]) for _ in range(nh)]
+    hs = [r.pick([0, MASK, MASK - 1, MASK ^ 0xffffffff, 1, 1 << 32, (1 << 32) - 1, 1 << 63, r.next(), r.next()]) for _ in range(nh)]
     single = r.chance(1, 5)          # one hash only: estimates must be exact
     if single:
         hs = hs[:1]
@@ -528,7 +542,8 @@ def gen_ctor_grid():
         for samples in (0, 1, 2, 3):
             for fp in fps:
                 add("tinylfu size=%d samples=%d fp=%s" % (size, samples, fp),
-                    ["inc 1", "inc 1", "inc ffffffffffffffff", "est 1", "inc 0", "tryreset", "est 0"])
+                    ["inc 1", "inc 1", "inc ffffffffffffffff", "est 1", "inc 0", "tryreset", "est 0",
+                     "est ffffffffffffffff", "inc fffffffffffffffe", "est fffffffffffffffe", "est ffffffff00000000"])
     for w in (0, 1, 2):
         for q in (0, 1, 2):
             for p in (0, 1, 2):
